@@ -9,6 +9,7 @@
 import PyTough.Proofs.ThermoIapws
 import PyTough.Proofs.ThermoSat
 import PyTough.Proofs.ThermoSatExamples
+import PyTough.Proofs.ThermoSatOn
 import PyTough.Proofs.ThermoVisc
 
 namespace Props.C14
@@ -198,6 +199,22 @@ theorem tsat_sat_inverse_partial (p : ℝ) (h0 : pmin ≤ p) (h1 : p ≤ pcritic
     leaves that interval (which it does at the critical end: `sat(373.946) = 22064000.00032 > pcritical`,
     exhibited bit for bit by the driver corpus, facet `critical_end_witness`) -/
 theorem tsat_outside_range (p : ℝ) (h : ¬(pmin ≤ p ∧ p ≤ pcritical)) : tsat p = Ret.none := tsat_none p h
+
+/-- **`tsat (sat t) = t` for every `t` with 0.01 ≤ t ≤ 373.9 degC — no further hypothesis.**  The range tests of both
+    routines and all branch conditions are *proved* on this interval, by an 85-piece cover of 273.16 K .. 647.05 K with
+    interval enclosures of `ϑ, A, B, C, Δ, √Δ, β` whose numbers are checked by `norm_num`
+    (`Proofs/ThermoSatPiece.lean`, `ThermoSatCover1..4.lean`).  What is left to `_partial` is only 373.9 .. 373.946 degC,
+    the last 0.046 K, at whose end the statement is false (`sat_tsat_critical_end`). -/
+theorem sat_tsat_inverse_on (t : ℝ) (h0 : 1 / 100 ≤ t) (h1 : t ≤ 3739 / 10) : tsat (sat t).toK = Ret.num t :=
+  Proofs.Iapws.sat_tsat_inverse_on t h0 h1
+
+/-- **`sat (tsat p) = p` for every pressure 613 Pa ≤ p ≤ 22.039 MPa — no further hypothesis** (`sat` is continuous on
+    0.01 .. 373.9 degC, so by the intermediate value theorem every such `p` is a saturation pressure `sat t`; then
+    `sat_tsat_inverse_on`; the two ends `sat 0.01 ≤ 613`, `sat 373.9 ≥ 22 039 000` come from the same enclosures) -/
+theorem tsat_sat_inverse_on (p : ℝ) (h0 : 613 ≤ p) (h1 : p ≤ 22039000) : sat (tsat p).toK = Ret.num p :=
+  Proofs.Iapws.tsat_sat_inverse_range p h0 h1
+
+example : (1 / 100 : ℝ) ≤ 100 ∧ (100 : ℝ) ≤ 3739 / 10 ∧ (613 : ℝ) ≤ 101325 ∧ (101325 : ℝ) ≤ 22039000 := by norm_num
 
 /-- non-vacuity: at `T = 500 K` and at `p = 1 MPa` all hypotheses of the four theorems above hold
     together (`exT_all`, `exP_all`: the square roots are enclosed between rationals), so they yield -/
